@@ -81,6 +81,34 @@ func c14Expand(c *C14Case) (old, nw []byte, evs []ovEvent) {
 		case 1:
 			nw = append(nw, r.Bytes(r.Pick(1, ovThr+1, ovBuf+3, r.Intn(ovBuf)))...)
 		}
+	case "periodic-grow":
+		// low-entropy content that repeats with a stride dividing the window: what lies one window back equals
+		// what is being written (stale reader buffers look like matches); the new file continues the pattern
+		// past the old end
+		var unit []byte
+		switch r.Intn(3) {
+		case 0:
+			unit = []byte{0xFF}
+		case 1:
+			unit = r.Bytes(4096)
+		default:
+			unit = r.Bytes(r.Pick(1, 2, 512, ovThr, ovBuf))
+		}
+		rep := func(n int) []byte {
+			b := make([]byte, 0, n)
+			for len(b) < n {
+				b = append(b, unit...)
+			}
+			return b[:n]
+		}
+		hdr := r.Bytes(r.Pick(0, 16, 100))
+		l1 := ovBuf + r.Pick(0, 1, ovThr, ovThr+1, ovBuf/2, ovBuf-1, ovBuf, r.Intn(2*ovBuf))
+		l2 := l1 + r.Pick(1, ovThr, ovThr+1, 2*ovThr, ovBuf/2, ovBuf, ovBuf+ovThr+1, r.Intn(2*ovBuf)+1)
+		if r.Intn(5) == 0 {
+			l1, l2 = l2, l1 // shrinking variant
+		}
+		old = append(append([]byte(nil), hdr...), rep(l1)...)
+		nw = append(append([]byte(nil), hdr...), rep(l2)...)
 	case "identical":
 		old = r.Bytes(pickSize())
 		nw = append([]byte(nil), old...)
@@ -309,7 +337,7 @@ func runC14(env *Env) {
 	if env.Thorough() {
 		n = 20000
 	}
-	shapes := []string{"runs", "runs", "runs", "identical", "unrelated", "lowentropy", "zeros", "shifted"}
+	shapes := []string{"runs", "runs", "runs", "identical", "unrelated", "lowentropy", "zeros", "shifted", "periodic-grow", "periodic-grow"}
 	rng := wvlib.NewRng(env.Seed)
 	cases := make([]*C14Case, n)
 	for i := range cases {
